@@ -225,6 +225,8 @@ def check_case(case):
         T0 = bytes(T0)
     elif t0 == 3:
         T0 = B
+    elif t0 == 4:            # an older, longer file under the same name whose chunks are all B's: only the final truncation is left to do
+        T0 = B + bytes((i * 7 + 3) & 255 for i in range(1 + case["damage"] % 5000))
     else:
         T0 = b""
     tp = os.path.join(d, "t", "B.zck")
@@ -302,7 +304,7 @@ seg = st.tuples(st.integers(0, 10 ** 6), st.one_of(st.integers(1, 60), st.intege
 @st.composite
 def cases(draw):
     return {"segs": [list(x) for x in draw(st.lists(seg, min_size=1, max_size=14))], "edits": [[a, b, list(c)] for a, b, c in draw(st.lists(st.tuples(st.integers(0, 2), st.integers(0, 20), seg), max_size=4))],
-            "have_a": draw(st.booleans()), "target": draw(st.integers(0, 3)), "damage": draw(st.integers(0, 2 ** 15)), "comp": draw(st.sampled_from([None, "none", "zstd"])),
+            "have_a": draw(st.booleans()), "target": draw(st.integers(0, 4)), "damage": draw(st.integers(0, 2 ** 15)), "comp": draw(st.sampled_from([None, "none", "zstd"])),
             "max_ranges": draw(st.sampled_from([1, 2, 7, 127, 10 ** 6, 10 ** 6])), "boundary": draw(st.one_of(st.just("00000000000000000001"), st.text(alphabet="0123456789abcdefXYZ", min_size=1, max_size=40), st.sampled_from(["a+b", "x(1)y", "gc0p4Jq0M2Yt08jU534c0p", "=_?:'a"]))),
             "quoted": draw(st.booleans()), "kill_after": draw(st.integers(1, 60000)) if A.property == "C11" else draw(st.one_of(st.none(), st.none(), st.none(), st.integers(1, 30000)))}
 
